@@ -215,6 +215,66 @@ def _stream_dag_colb(ctx):
         "of column B; value = the target evaluated alone by a fresh compiler = the graph machine's")
 
 
+def _stream_list_model(ctx):
+    """Correspondence leg of C05_list_path / C05_permutation: ExcelCompiler.evaluate on a list / tuple /
+    generator of addresses (shuffled, with repetitions, after a random history of single evaluations)
+    against Model/C05List.v evaluate_list on the extracted machine; oracle: every position = the cell
+    evaluated alone by a fresh compiler."""
+    from pycel import ExcelCompiler
+    rng = ctx.rng
+    nwb = ctx.n(16, 200)
+    calls, meta = [], []
+    for k in range(nwb):
+        wb = wbgen.gen_workbook(rng, ncells=rng.randrange(4, 7), pool=wbgen.CLEAN_POOL + [None, 0, 1, True],
+                                blank_results=False)
+        cells = wb.cells()
+        desc = [(x['addr'], x.get('value'), x.get('text')) for x in wb.nodes]
+        ref = ExcelCompiler(excel=wb.to_openpyxl())
+        refv = {i: canon(ref.evaluate(wb.nodes[i]['addr'])) for i in cells}
+        for rep in range(3):
+            prefix = rng.sample(cells, rng.randrange(0, 3))
+            members = [rng.choice(cells) for _ in range(rng.randrange(1, 2 * len(cells)))]
+            kind = ('list', 'tuple', 'generator')[rep]
+            addrs = [wb.nodes[i]['addr'] for i in members]
+            arg = addrs if kind == 'list' else tuple(addrs) if kind == 'tuple' else (a for a in addrs)
+            case = dict(call='list-model', workbook=desc, args=[kind, addrs],
+                        history=[wb.nodes[i]['addr'] for i in prefix])
+            c = ExcelCompiler(excel=wb.to_openpyxl())
+            try:
+                for i in prefix:
+                    c.evaluate(wb.nodes[i]['addr'])
+                val = c.evaluate(arg)
+            except Exception as exc:      # noqa: BLE001
+                ctx.violation(case, f"evaluate({kind}) raises {type(exc).__name__}: {exc}"[:200])
+                continue
+            ctx.count(('list-model', k, rep), kind='list-model')
+            want_type = list if kind == 'list' else tuple
+            if type(val) is not want_type:
+                ctx.violation(case, f"evaluate({kind}) returns a {type(val).__name__}", impl=canon(val))
+                continue
+            got = [canon(v) for v in val]
+            want = [refv[i] for i in members]
+            if got != want:
+                ctx.violation(case, "a member of an address list differs from the cell evaluated alone",
+                              impl=got, expected=want)
+            calls.append(('evlist', [wb.wire(), [[0, i] for i in prefix], list(members)]))
+            meta.append((case, got))
+    if ctx.model and calls:
+        for (case, got), ans in zip(meta, ctx.model.batch(calls)):
+            try:
+                mvals = [dec_val(m) for m in ans[0]]
+            except Exception:      # noqa: BLE001
+                ctx.divergence(case, got, ans, 'Model/C05List.v evaluate_list = ExcelCompiler.evaluate(list)')
+                continue
+            if len(mvals) != len(got) or any(not same(a, b) for a, b in zip(mvals, got)):
+                ctx.divergence(case, got, mvals, 'Model/C05List.v evaluate_list = ExcelCompiler.evaluate(list)')
+    ctx.extra['rule'] += (
+        "; list-model - the same DAG workbooks, a random history of 0-2 single evaluations, then evaluate on a "
+        "list / tuple / generator of 1..2n addresses drawn with repetition in random order: result type kept, "
+        "every position = the cell evaluated alone, and the whole answer = Model/C05List.v evaluate_list on the "
+        "extracted machine (distinct = distinct (workbook, history, address sequence))")
+
+
 def _canon_model(v):
     if isinstance(v, list):
         return [_canon_model(x) for x in v]
@@ -227,6 +287,7 @@ def run(ctx):
     ensure_impl_on_path()
     _stream_dag(ctx)
     _stream_dag_colb(ctx)
+    _stream_list_model(ctx)
     # oracle-only streams (implementation alone; the reference is the cell evaluated alone in a fresh compiler)
     for stream in (_stream_cse, _stream_tables, _stream_reference, _stream_cse_overlap, _stream_range_ops,
                    _stream_unbounded_history, _stream_cse_sheets, _stream_merged):
